@@ -117,4 +117,14 @@ func TestAll(t *testing.T) {
 	if GuardedIndex(5) != -1 {
 		t.Fatal("guarded index")
 	}
+	if LockerGet("abc") != 3 || LockerGet("abc") != 3 {
+		t.Fatal("locker")
+	}
+	a := MethodValueUnlock()
+	if MethodValueUnlock() != a+1 {
+		t.Fatal("method value unlock")
+	}
+	if GoWithResult() != 6 || EntryOnce("ab") != 4 || EntryOnce("ab") != 4 {
+		t.Fatal("go with result / entry once")
+	}
 }
